@@ -10,6 +10,8 @@ import (
 	"strings"
 	"sync/atomic"
 
+	"crypto/sha1"
+
 	"github.com/dgryski/go-wyhash"
 )
 
@@ -757,6 +759,42 @@ func init() {
 				return ConstU(wyhash.Hash(b, seed.C.Uint64()), 64)
 			}
 			return UF(fmt.Sprintf("wyhash_%d", len(ts)), BV(64), append(ts, seed)...)
+		},
+
+		zz + "UF32sha1": func(w *W, s *State, args []Value) Value {
+			ts := strBytes(args[0].(StrV))
+			if b, ok := allConst(ts); ok {
+				sum := sha1.Sum(b)
+				return ConstU(uint64(sum[0])<<24|uint64(sum[1])<<16|uint64(sum[2])<<8|uint64(sum[3]), 32)
+			}
+			return UF(fmt.Sprintf("sha1w0_%d", len(ts)), BV(32), ts...)
+		},
+		zz + "Wyhash": func(w *W, s *State, args []Value) Value {
+			ts := strBytes(args[0].(StrV))
+			seed := term(args[1])
+			if b, ok := allConst(ts); ok && seed.IsConst() {
+				return ConstU(wyhash.Hash(b, seed.C.Uint64()), 64)
+			}
+			return UF(fmt.Sprintf("wyhash_%d", len(ts)), BV(64), append(ts, seed)...)
+		},
+		"crypto/sha1.Sum": func(w *W, s *State, args []Value) Value {
+			ts := sliceTerms(s, args[0].(SliceV))
+			el := make([]Value, 20)
+			if b, ok := allConst(ts); ok {
+				sum := sha1.Sum(b)
+				for i := range el {
+					el[i] = ConstU(uint64(sum[i]), 8)
+				}
+				return ArrayV{el}
+			}
+			// uninterpreted: five 32-bit words of the input bytes
+			for wd := 0; wd < 5; wd++ {
+				u := UF(fmt.Sprintf("sha1w%d_%d", wd, len(ts)), BV(32), ts...)
+				for k := 0; k < 4; k++ {
+					el[wd*4+k] = Extract(u, 31-8*k, 24-8*k)
+				}
+			}
+			return ArrayV{el}
 		},
 
 		// ---- otel ----
